@@ -97,12 +97,13 @@ prop(
 prop(
     id="C13",
     stages=[dict(name="c13", pkg="c13", test="TestC13", access=[], timeout_quick=240, timeout_thorough=2400),
+            dict(name="c13composed", pkg="c13", test="TestC13Composed", access=[], timeout_quick=240, timeout_thorough=2400),
             dict(name="c14config", pkg="c14", test="TestC14Config", access=[FILE_ACCESS], timeout_quick=300, timeout_thorough=3000)],
     ok_pred={"jitter": "jitter_ok"},
     check_ok_always=True,
     rule="api.WithJitter around scripted rate lists (constant, ramps, bursts, zeros, random; lengths 1..200, some 1000-10000), jitter in "
          "{0,0.5,2,20,50,99,99.9,33.3,...}; the global math/rand source is seeded and mirrored so the model receives the very cos factors as float64 bit patterns; "
-         "exact per-tick equality with the binary64 transcription; the jitter in force for every stage of generated config files (stage's own - 0 included - before the default section's), seen as 24 evaluations of the stage's rate function that agree (zero jitter is the identity) or vary (predicate config_jitter_ok); non-trivial = jitter != 0 / config with stage-start and >= 2 stages; distinct = distinct (jitter, rates, factors) tuples / configs",
+         "exact per-tick equality with the binary64 transcription; the constant trigger as the CLI builds it (rate x jitter x regular/random distribution) stepped side by side with its un-jittered twin for 2000-20000 sub-ticks: running totals within composed_bound_ok (theorem C13_composed_bound); the jitter in force for every stage of generated config files (stage's own - 0 included - before the default section's), seen as 24 evaluations of the stage's rate function that agree (zero jitter is the identity) or vary (predicate config_jitter_ok); non-trivial = jitter != 0 / config with stage-start and >= 2 stages; distinct = distinct (jitter, rates, factors) tuples / configs",
     assumptions=["math.Cos and math/rand are oracles: their values are taken from the run, not modelled",
                  "rand.Seed seeds the global source deterministically (Go < 1.24 semantics; go1.23.5 here)",
                  "float64 = IEEE-754 binary64 (see C10 stage f64)",
